@@ -78,6 +78,18 @@ func HandleInvite(ctx context.Context, input HandleInviteInput) (PDU, error) {
 		return nil, spec.BadJSON("The room ID in the request path must match the room ID in the invite event JSON")
 	}
 
+	// Check that the event is in fact an invite of the invited user.
+	if input.InviteEvent.Type() != spec.MRoomMember || input.InviteEvent.StateKey() == nil {
+		return nil, spec.BadJSON("The event must be an m.room.member state event")
+	}
+	if membership, mErr := input.InviteEvent.Membership(); mErr != nil || membership != spec.Invite {
+		return nil, spec.BadJSON("The event must have membership 'invite'")
+	}
+	invitee, err := input.UserIDQuerier(input.RoomID, spec.SenderID(*input.InviteEvent.StateKey()))
+	if err != nil || invitee == nil || invitee.String() != input.InvitedUser.String() {
+		return nil, spec.BadJSON("The state key of the invite event must be the invited user")
+	}
+
 	// Check that the event is signed by the server sending the request.
 	redacted, err := verImpl.RedactEventJSON(input.InviteEvent.JSON())
 	if err != nil {
